@@ -6,7 +6,7 @@ HARNESS_TIMEOUT = {'quick': 900, 'thorough': 7200}
 
 # files whose failure means the executable model itself does not build
 MODEL_FILES = ['theories/Base.v', 'theories/Lines.v', 'theories/Lifecycle.v', 'theories/Regex.v', 'theories/Claims.v',
-               'theories/Obs.v', 'theories/CaseClaims.v', 'theories/RunC14.v', 'theories/RunHist.v', 'theories/RunCodec.v', 'theories/RunEv.v', 'theories/RunCose.v', 'theories/RunEmb.v', 'theories/Embedded.v', 'theories/Evidence.v', 'theories/Gates.v', 'theories/Cose.v', 'theories/Cbor.v', 'theories/Utf8.v', 'theories/Tags.v', 'theories/Wire.v', 'theories/Codec.v', 'theories/Run.v', 'gen/GenTags.v', 'spec/SpecTags.v', 'spec/SpecTables.v', 'gen/GenConsts.v']
+               'theories/Obs.v', 'theories/CaseClaims.v', 'theories/RunC14.v', 'theories/RunHist.v', 'theories/RunCodec.v', 'theories/RunEv.v', 'theories/RunCose.v', 'theories/RunEmb.v', 'theories/Embedded.v', 'theories/RunReg.v', 'theories/Registry.v', 'theories/Json.v', 'theories/Evidence.v', 'theories/Gates.v', 'theories/Cose.v', 'theories/Cbor.v', 'theories/Utf8.v', 'theories/Tags.v', 'theories/Wire.v', 'theories/Codec.v', 'theories/Run.v', 'gen/GenTags.v', 'spec/SpecTags.v', 'spec/SpecTables.v', 'gen/GenConsts.v']
 
 TRUSTED_BASE = [
     'Coq 8.16.1 kernel (coqc; vm_compute used in tie obligations; no native_compute)',
@@ -166,7 +166,20 @@ def _c06_oracle(inp, obs, extra):
 
 EMB_CONE = ['theories/CborProofs.v', 'theories/EmbeddedProofs.v']
 
+REG_CONE = WIRE_CONE + ['theories/RegistryProofs.v']
+
 PROPS = {
+    'C07': dict(
+        cone=REG_CONE, level='proof', kernel_maxlen=2500,
+        nontrivial=lambda i, o: 'err' in o, classify=lambda i, o: 'regs=%d' % sum(1 for t in i.split(' ') if t.startswith('r')),
+        rule='every combination of the profile claim under key 265 / member eat-profile and under key -75000 / member psa-profile (absent, null, the two built-in names, three extension names, an unregistered URL, a non-normalised spelling of the profile-2 name, an integer) on complete valid profile-1 and profile-2 bodies, in CBOR and in JSON, under four register configurations (no extension, one, two, three extension profiles; profile-2-based ones sharing eat-profile, a profile-1-based one sharing psa-profile), plus NewClaims for every name, plus random histories; each history in its own process; observed: error or (dynamic type, GetProfile result, Validate result); JSON dispatch repeated 64 times per token; non-trivial = some step is an error',
+    ),
+    'C16': dict(
+        cone=REG_CONE, level='proof', kernel_maxlen=2500,
+        nontrivial=lambda i, o: 'err' in o, classify=lambda i, o: 'regs=%d' % sum(1 for t in i.split(' ') if t.startswith('r')),
+        rule='random histories of 4..17 operations over {register extension profile (two profile-2-based sharing eat-profile, one profile-1-based sharing psa-profile, one without profile field, one re-using the profile-2 name), re-register, NewClaims(any name), DecodeClaimsFromCBOR / JSON of tokens with every kind of profile claim, mutate-the-first-instance-through-all-setters-and-re-read-the-others}; each history in its own process (registration is permanent); every JSON dispatch repeated 64 times (map iteration order); non-trivial = some step is an error',
+        assumptions=['instance independence is a fact about the Go heap: observed (indep=1), not proved'],
+    ),
     'C05': dict(
         cone=CLAIMS_CONE + ['theories/SetterProofs.v'] + EMB_CONE, level='proof', oracle=_c05_oracle, kernel=False, rlimit_as=8 << 30,
         nontrivial=lambda i, o: True, classify=lambda i, o: 'len<%d' % (1 << (len(i.split(' ')[1]) // 2).bit_length()),
